@@ -876,7 +876,7 @@ Proof.
     rewrite forallb_forall in Hok. apply inv_need; [exact I | exact (i_np st I) |].
     intros b H. apply in_app_or in H. destruct H as [H|H]; [apply Hok; exact H | exact (i_nw st I b H)].
   - (* TableWrite *)
-    destruct Hok as [H1 H2]. apply negb_true_iff in H2. apply memb_false in H2. apply inv_tabs; [exact I|].
+    rename Hok into H2. apply negb_true_iff in H2. apply memb_false in H2. apply inv_tabs; [exact I|].
     intros id' Hin. rewrite pupd_neq; [reflexivity | intros ->; contradiction].
   - (* TableSync *)
     apply negb_true_iff in Hok. apply memb_false in Hok. destruct (tabs st id) as [t|]; [|exact I].
@@ -1135,8 +1135,8 @@ Lemma partial_batch_refuted : partial_batch_refuted_stmt. Proof. vm_compute. ref
 Lemma relog_accepted : relog_accepted_stmt. Proof. vm_compute. split; reflexivity. Qed.
 Lemma split_marked_flushed_refuted : split_marked_flushed_refuted_stmt. Proof. vm_compute. reflexivity. Qed.
 Lemma flush_before_relog_refuted : flush_before_relog_refuted_stmt. Proof. vm_compute. reflexivity. Qed.
-Lemma recovery_piece_unsynced_refuted : recovery_piece_unsynced_refuted_stmt. Proof. vm_compute. split; reflexivity. Qed.
-Lemma recovery_nonlast_split_refuted : recovery_nonlast_split_refuted_stmt. Proof. vm_compute. reflexivity. Qed.
+Lemma recovery_piece_unsynced_old_recovery_refuted : recovery_piece_unsynced_old_recovery_refuted_stmt. Proof. vm_compute. split; reflexivity. Qed.
+Lemma recovery_nonlast_split_old_recovery_refuted : recovery_nonlast_split_old_recovery_refuted_stmt. Proof. vm_compute. reflexivity. Qed.
 Lemma p9_needed : p9_needed_stmt. Proof. vm_compute. reflexivity. Qed.
 Lemma p2s_needed : p2s_needed_stmt. Proof. vm_compute. reflexivity. Qed.
 Lemma p3_needed : p3_needed_stmt. Proof. vm_compute. reflexivity. Qed.
@@ -1163,7 +1163,7 @@ Proof.
   unfold flush_piece. cbn [okb_from]. rewrite andb_true_r.
   assert (Hm : memb id (mtabs st) = false) by (apply memb_false; exact Hnin).
   (* TableWrite, TableSync *)
-  assert (O1 : okb st (TableWrite id cv) = true) by (unfold okb; cbn; rewrite Hnone, Hm; reflexivity).
+  assert (O1 : okb st (TableWrite id cv) = true) by (unfold okb; cbn; rewrite Hm; reflexivity).
   rewrite O1. cbn [andb papply].
   set (st1 := set_tabs st (pupd (tabs st) id (Some (mkTab cv false true)))).
   assert (O2 : okb st1 (TableSync id) = true) by (unfold okb, obligations; cbn [forallb fst]; change (mtabs st1) with (mtabs st); rewrite Hm; reflexivity).
@@ -1230,3 +1230,5 @@ Proof.
   apply piece_flush_inv; try assumption.
   apply inv_crash. replace sigma with (firstn (length sigma) sigma) by apply firstn_all. apply inv_prefix. exact Hok.
 Qed.
+Lemma repaired_piece_recovery : repaired_piece_recovery_stmt. Proof. vm_compute. split; reflexivity. Qed.
+Lemma repaired_nonlast_recovery : repaired_nonlast_recovery_stmt. Proof. vm_compute. repeat split; reflexivity. Qed.
